@@ -8,7 +8,10 @@ B = BLOCK
 # (the last name and the last URL are not NFC-stable: decomposed accent, OHM / ANGSTROM signs)
 NAMES = ["plain", "with space", "a&b=c", "100%+x#y", "ünï-ço∂é", "q?x;y", "名前", "e\u0301tude \u2126 \u212b"]
 URLS = ["http://t.example/announce", "http://t.example/a b?x=1&y=2", "udp://t.example:6969/%41+plus#frag",
-        "http://ü.example/é", "https://w.example/dir/", "http://t.example/e\u0301/\u2126?k=\u212b"]
+        "http://ü.example/é", "https://w.example/dir/", "http://t.example/e\u0301/\u2126?k=\u212b",
+        # endings made of the characters the URI's own syntax uses (&tr= &ws= xt dn)
+        "udp://open.example.net", "https://cdn.example.org/pub/downloads", "http://t.example/?tr=", "http://w.example/ws",
+        "http://t.example/a&", "http://t.example/tr=&tr=", "magnet:?xt=urn:btih:"]
 
 
 class C11(Prop):
